@@ -103,7 +103,8 @@ pub fn rec_msm(a: &Args, out: &mut Out) {
             };
             for k in 0..per_type {
                 // ---- an admissible (S, G, C): every satellite and signal used, |S|*|G| <= 64
-                let ng = if k % 5 == 0 { sigs.len().min(r.gen_range(1..=8)) } else { r.gen_range(1..=sigs.len().min(6)) };
+                // every 10th case uses ALL recognised signals of the constellation (up to 19 for Galileo)
+                let ng = if k % 10 == 5 { sigs.len() } else if k % 5 == 0 { sigs.len().min(r.gen_range(1..=8)) } else { r.gen_range(1..=sigs.len().min(6)) };
                 let mut gs = sigs.clone();
                 shuffle(&mut r, &mut gs);
                 gs.truncate(ng);
